@@ -127,8 +127,17 @@ def run_case(case):
         try:
             for i_, m_ in enumerate(masters):
                 h.add_master("m%d" % i_, m_)
-            for j_, (r_, s_) in enumerate(zip(regions, slaves)):
-                h.add_slave("s%d" % j_, s_, r_)
+            if case.get("seed", 0) % 3 == 0:
+                # regions declared first, the slaves bound to them by name later and in another order
+                for j_, r_ in enumerate(regions):
+                    h.add_region("s%d" % j_, r_)
+                order = list(range(S))
+                order = order[1:] + order[:1] if case["seed"] % 2 else order[::-1]
+                for j_ in order:
+                    h.add_slave("s%d" % j_, slaves[j_])
+            else:
+                for j_, (r_, s_) in enumerate(zip(regions, slaves)):
+                    h.add_slave("s%d" % j_, s_, r_)
         finally:
             _env.restore_stderr()
         top.submodules.dut = h
